@@ -822,6 +822,12 @@ func (c *VirtualTable) Commit(ctx context.Context) error {
 	return nil
 }
 
+// EndReadOnly ends the transaction of a read-only table, which has no commit: every
+// write to it was refused, so there is nothing to keep and nothing to restore.
+func (c *VirtualTable) EndReadOnly() {
+	c.txStart = nil
+}
+
 func (c *VirtualTable) Rollback() error {
 	dbg("ROLLBACK\n")
 	if c.txStart != nil {
